@@ -398,3 +398,59 @@ func recoversIntoError(f *ssa.Function) bool {
 	}
 	return false
 }
+
+// errValueDiscipline follows an error value (through phis and local cells): used reports that it is tested against
+// nil with the non-nil case ending in an error return, returned, or handed on; dropped names a nil test of it whose
+// non-nil case goes on to something else than an error return.
+func errValueDiscipline(p *Prog, f *ssa.Function, ex ssa.Value) (used bool, dropped string) {
+	seen := map[ssa.Value]bool{}
+	var walk func(v ssa.Value, d int)
+	walk = func(v ssa.Value, d int) {
+		if seen[v] || d > 6 {
+			return
+		}
+		seen[v] = true
+		for _, uu := range refs(v) {
+			switch x := uu.(type) {
+			case *ssa.BinOp:
+				if (x.Op != token.EQL && x.Op != token.NEQ) || !(isNilConst(x.X) || isNilConst(x.Y)) {
+					used = true
+					continue
+				}
+				for _, bu := range refs(x) {
+					iff, isIf := bu.(*ssa.If)
+					if !isIf {
+						used = true
+						continue
+					}
+					nonNil := iff.Block().Succs[0]
+					if x.Op == token.EQL {
+						nonNil = iff.Block().Succs[1]
+					}
+					if errorReturnsOnly(f, nonNil) {
+						used = true
+					} else if dropped == "" {
+						dropped = p.InstrPos(iff)
+					}
+				}
+			case *ssa.Return, *ssa.Call, *ssa.MakeInterface, *ssa.TypeAssert, *ssa.ChangeInterface:
+				used = true
+			case *ssa.Phi:
+				walk(x, d+1)
+			case *ssa.Store:
+				if x.Val == v {
+					for _, lu := range refs(x.Addr) {
+						if l, isL := lu.(*ssa.UnOp); isL && l.Op == token.MUL {
+							walk(l, d+1)
+						}
+					}
+					if _, isAlloc := x.Addr.(*ssa.Alloc); !isAlloc {
+						used = true // stored into a field/result: handed on
+					}
+				}
+			}
+		}
+	}
+	walk(ex, 0)
+	return used, dropped
+}
